@@ -851,6 +851,11 @@ impl<'a> World<'a> {
 
     /// true when a filter / paging on the target field goes through the spliced default (known deviation)
     fn spliced_default_hazard(&self) -> Option<&'static str> {
+        // (a text default was written between quotes in the filter SQL: repaired by 5fd9076; a case with a
+        // quote or a NUL in its default is no longer explained by that)
+        if true {
+            return None;
+        }
         if !matches!(self.plan.variant, Variant::Def | Variant::Late) {
             return None;
         }
